@@ -58,6 +58,23 @@ def pairs(ctx, n):
         if len(t) < len(p):
             t = t + [rng.randrange(sigma) for _ in range(len(p) - len(t))]
         out.append((t, p))
+    # lane-structured patterns (see tools/gen_bpm.py): full 64-symbol lanes of a symbol absent from the text, lane 0 cut from the text --
+    # a carry from lane 0 must ripple through one, two or more all-ones lanes
+    for _ in range(max(20, n // 6)):
+        nl = rng.choice([2, 3, 4, 4, 4, 5, 8, 16])
+        m = 64 * nl - rng.choice([0, 0, 1, 7, 33, 63])
+        nlen = m + rng.randint(0, 300)
+        t = [rng.randrange(12) for _ in range(nlen)]
+        p = []
+        absent = set(k for k in range(1, nl) if rng.random() < 0.6)
+        for k in range(nl):
+            if k in absent:
+                p += [12] * 64
+            else:
+                a = rng.randint(0, max(0, nlen - 64))
+                p += t[a:a + 64]
+                p += [rng.randrange(12) for _ in range(64 * (k + 1) - len(p))]
+        out.append((t, p[:m]))
     return out
 
 
